@@ -186,8 +186,8 @@ CLAIMS["C08"] = dict(
     note=TB + 'Known finding D6 (thorn / U+8268 / U+8269 deleted by any token-level fix). NOT covered: that editing a style field preserves the parse (indent_level ...), the regenerator itself (incl. where it re-inserts pragma lines, D17(a)), that the value a rule writes into a text-carrying field equals the old text up to whitespace. Meaning preservation of the whole pipeline is not decided by this check.')
 
 CLAIMS["C06"] = dict(
-    text="Proof for the eight rules brought under contract (a fragment: the property quantifies over all 46 rules), each against a spec automaton transcribed from the rule's documentation, for all token / line sequences and all configurations: MD013 (line length: limit by element kind, headings / code_blocks switches, long-last-word exemption, strict; the quick-reject threshold established by initialize_from_config never exceeds a limit), MD001 (heading increment, incl. the front-matter title and the value the fix requests), MD025 (single top-level heading), MD035 (thematic-break style, consistent mode), MD047 (file ends with a newline, reported at the end of the last line; fix appends exactly one newline), MD048 (code-fence style, consistent mode, fix character), MD004 (unordered-list marker: configured / consistent / per-level `sublist` expectation kept in a map, nesting level, fix character), MD041 (first element: nothing after the first verdict, heading level, every reported position has line >= 1 and column >= 1; D24 fixed): each step reports exactly once iff the documented condition holds in the automaton state, at the token's position, and updates the state as documented; every starting_new_file re-initialises that state; for all 46 rules the configuration items read by initialize_from_config (names, types, defaults) equal the documented table (shared with C17).",
-    note=TB + "Known finding D13 (MD013 stern mode inverted against its documentation). NOT covered: the trigger conditions of the other 38 rules (their token-driven state machines need the token stream specified first, C04/C05 in full); which leaf token a line belongs to (MD013) is taken from the rule's own bookkeeping; string comparisons of texts longer than one character are by identity of the string value in the encoding (the specification uses the same comparison).")
+    text="Proof for the nine rules brought under contract (a fragment: the property quantifies over all 46 rules), each against a spec automaton transcribed from the rule's documentation, for all token / line sequences and all configurations: MD013 (line length: limit by element kind, headings / code_blocks switches, long-last-word exemption, strict; the quick-reject threshold established by initialize_from_config never exceeds a limit), MD001 (heading increment, incl. the front-matter title and the value the fix requests), MD025 (single top-level heading), MD035 (thematic-break style, consistent mode), MD047 (file ends with a newline, reported at the end of the last line; fix appends exactly one newline), MD048 (code-fence style, consistent mode, fix character), MD004 (unordered-list marker: configured / consistent / per-level `sublist` expectation kept in a map, nesting level, fix character), MD041 (first element: nothing after the first verdict, heading level, every reported position has line >= 1 and column >= 1; D24 fixed), MD046 (code-block style, consistent mode; scan mode only): each step reports exactly once iff the documented condition holds in the automaton state, at the token's position, and updates the state as documented; every starting_new_file re-initialises that state; for all 46 rules the configuration items read by initialize_from_config (names, types, defaults) equal the documented table (shared with C17).",
+    note=TB + "Known finding D13 (MD013 stern mode inverted against its documentation). NOT covered: the trigger conditions of the other 37 rules (their token-driven state machines need the token stream specified first, C04/C05 in full); which leaf token a line belongs to (MD013) is taken from the rule's own bookkeeping; string comparisons of texts longer than one character are by identity of the string value in the encoding (the specification uses the same comparison).")
 
 NA = {
     "C01": "totality of the ~60 kLoC parser is a postcondition of TokenizedMarkdown.transform; no contract chain within reach without a Python deductive verifier (DESIGN.md 7)",
